@@ -466,7 +466,8 @@ def correspond(ctx, search_mode=False):
         for case in small_cases():
             run_case(ctx, 'expire-small', case)
             k += 1
-        ctx.cov['exhaustive'] = {'expire-small': k}
+        ctx.cov['exhaustive'] = True
+        ctx.cov['exhaustive_streams'] = {'expire-small': k}
     else:
         # a seeded slice of the exhaustive enumeration
         allc = list(small_cases())
